@@ -139,7 +139,7 @@ M('maybe-no-permission-check', ['C04'], Z, "            if (not do_send or not c
 M('second-prefetch', ['C04'], Z, "                    request(min_recv_id)  # preemptively request the next expected frame before returning, sacrifices latency for throughput", "                    request(min_recv_id)  # preemptively request the next expected frame before returning, sacrifices latency for throughput\n                    request(min_recv_id + 1)", ['C04.R4'])
 M('request-from-send_oob-path', ['C04'], Z, "        for sender in self.senders.values():\n            sender.send_push(msg0, msg_)", "        for sender in self.senders.values():\n            sender.send_push(msg0, msg_)\n            sender.push.send_multipart([b'{}'])", ['C04.R4', 'C05.R3'])
 M('timeout-uses-poll-timeout', ['C04', 'C06'], Z, "            t_min      = t - ZMQ_CONN_TIMEOUT", "            t_min      = t - ZMQ_POLL_TIMEOUT", ['C04.R5', 'C06.R4'])
-M('close-not-deleting', ['C04', 'C06'], Z, "                        if full_id in clients:\n                            del clients[full_id]", "                        if full_id in clients:\n                            pass", ['C04.R5', 'C06.R4'])
+M('close-not-deleting', ['C04', 'C06'], Z, "                        if (client := clients.pop(full_id, None)) is not None:", "                        if (client := clients.get(full_id, None)) is not None:", ['C04.R5', 'C06.R4'])
 M('drop-on-stale-request', ['C04'], Z, "            t_min      = t - ZMQ_CONN_TIMEOUT", "            t_min      = t - ZMQ_CONN_TIMEOUT\n            if prev_id < msg_id - 5:\n                del clients[full_id]", ['C04.R5'])
 
 M('send_push-unguarded', ['C05'], Z, "            if self.ephemeral < 2:  # do not anything to doubly-ephemeral channels\n                msg0['uid'] = self.unique_id", "            if self.ephemeral < 3:  # do not anything to doubly-ephemeral channels\n                msg0['uid'] = self.unique_id", ['C05.R3'])
@@ -377,7 +377,7 @@ M('mq-send-state-not-cleared', ['C02', 'C03'], MQ, "        self.send_state = No
 M('mq-recv-state-not-cleared', ['C02'], MQ, "        self.recv_state            = None  # we already used up this recv_state", "        pass  # we already used up this recv_state", ['C02.R7'])
 M('mq-recv-ignores-state', ['C02'], MQ, "self.receiver.recv(self.recv_state if self.mq_msgid_sync else None, timeout)", "self.receiver.recv(None, timeout)", ['C02.R7'])
 M('send_push-no-uid', ['C04'], Z, "                msg0['uid'] = self.unique_id\n", "", ['C04.R6'])
-M('clients-keyed-by-cid-only', ['C04'], Z, "                full_id   = client_id + env.get('uid', '')", "                full_id   = client_id", ['C04.R6'])
+M('clients-keyed-by-cid-only', ['C04'], Z, '''                full_id   = f"{client_id}{env.get('uid', '')}"''', '''                full_id   = f"{client_id}"''', ['C04.R6'])
 M('cli-probe-no-restore-on-exception', ['C12'], CLI, "    except Exception:\n        return False  # safest thing to do here\n    finally:\n        Filter.normalize_config = old_Filter_normalize_config\n", "    except Exception:\n        return False  # safest thing to do here\n\n    Filter.normalize_config = old_Filter_normalize_config\n", ['C12.R4'])
 
 # ------------------------------------------------------------------------- shapes of the independently seeded changes
@@ -698,3 +698,9 @@ M('loop-D50-shape-error-handler-skips-deadline', ['C08'], F, "                  
 M('zmq-D51-shape-sender-addr-raw', ['C15'], Z, "            self.addr        = hide_uri_users_and_pwds(addr_connect)  # only used in messages", "            self.addr        = addr_connect", ['C15.R1'])
 M('zmq-D51-shape-publishing-on-raw', ['C15'], Z, "publishing on {hide_uri_users_and_pwds(pub_addr)}, listening on", "publishing on {pub_addr}, listening on", ['C15.R1'])
 M('run-D51-shape-logs-raw-exception', ['C15'], F, "                logger.error(hide_uri_users_and_pwds(str(exc)))  # libraries put the address or URI they were given into their messages\n\n                raise", "                logger.error(exc)\n\n                raise", ['C15.R6'])
+
+M('zmq-D52-shape-client-key-concatenated', ['C06'], Z, '''                full_id   = f"{client_id}{env.get('uid', '')}"''', '''                full_id   = client_id + env.get('uid', '')''', ['C06.R13'])
+M('zmq-D53-shape-wall-clock', ['C06'], Z, "from time import monotonic_ns as time_ns, sleep", "from time import time_ns, sleep", ['C06.R13'])
+M('zmq-eph-close-withdraws-permission', ['C05'], Z, "                            if not client.ephemeral:  # a listener leaving changes nothing for the others and must not hold the publisher up\n                                do_send = False", "                            if True:\n                                do_send = False", ['C05.R11'])
+M('zmq-eph-id-in-balanced-max', ['C05'], Z, "                        out_prev_id if ephemeral else max(out_prev_id, prev_id),", "                        max(out_prev_id, prev_id),", ['C05.R11'])
+M('zmq-D54-shape-eph-close-keeps-partial', ['C05'], Z, "                            if sender_eph and sender.got == 'some':  # the rest of a half received set will not come any more, and must not be completed by the next publisher on this address\n                                sender.new_recv()\n", "", ['C05.R11'])
